@@ -985,7 +985,7 @@ class Forest:
 _DEFAULTS = dict(min_units=1, max_units=4, max_depth=4, max_dies=40, versions=(2, 3, 4, 5),
                  partial_units=True, refs=True, share_abbrev=0.5, sibling=0.35, strp=0.5,
                  lone_null=0.15, odd_codes=0.3, cross_unit_chains=False, max_chain=4,
-                 llvm_safe=True, v4_block_locations=False, extras=0.3, refused=0.0, cu_imports=0.0, dup_attrs=0.0, implicit_consts=0.0,
+                 llvm_safe=True, v4_block_locations=False, extras=0.3, refused=0.0, cu_imports=0.0, dup_attrs=0.0, implicit_consts=0.0, const_blocks=0.0,
                  rich_ops=0.0, loclists=0.0,
                  const_forms=("data1", "data2", "data4", "data8", "sdata", "udata"))
 
@@ -1112,6 +1112,11 @@ class ForestGen:
     def _const(self, form=None):
         """(form name, internal value) for a DW_AT_const_value."""
         r = self.rng
+        if form is None and self._chance(self.opts["const_blocks"]):
+            # a constant stored as a block: 1, 2, 4 and 8 bytes can be read as numbers of the type, other sizes cannot
+            n = r.choice([1, 2, 2, 4, 8, 3, 16, 0])
+            b = bytes(r.choice([0, 0xff, 0x80, 0x7f, 0x34, 0x12, 0xfe, r.randrange(256)]) for _ in range(n))
+            return "block1", (b, [])
         if form is None:
             form = r.choice(self.opts["const_forms"])
         if self._chance(0.7):
